@@ -43,6 +43,9 @@ type c15Case struct {
 	// Env: further environment variables of the sandbox process (a cross-compilation shell exports GOARCH/GOOS; other
 	// variables of the Go tool chain and of common libraries). None of them is an input of the sandbox command.
 	Env []string `json:"env,omitempty"`
+	// GOARCH: "" = the amd64 build of the sandbox command and of the target; "386" = 386 builds of both (valid policies
+	// only; the policy is then one for the i386 table)
+	GOARCH string `json:"goarch,omitempty"`
 }
 
 var c15Defects = []string{"missing-file", "empty-file", "yaml-syntax", "wrong-type", "unknown-syscall", "unknown-syscall-conditional", "unknown-action",
@@ -85,6 +88,10 @@ func drawC15(t *rapid.T) c15Case {
 		c.DenyExec = true
 		c.Policy = c15DenyExecPolicy(rapid.IntRange(0, 2).Draw(t, "denyExecShape"))
 	}
+	if c.Defect == "" && !c.DenyExec && rapid.IntRange(0, 3).Draw(t, "abi") == 0 {
+		c.GOARCH = "386"
+		c.Policy = drawProbePolicy(t, "i386", []uint32{actAllow, actErrno, actErrno, actLog, actTrace, actKillP}, []uint32{actAllow, actAllow, actErrno, actLog})
+	}
 	if rapid.IntRange(0, 3).Draw(t, "hostileEnv") == 0 {
 		all := []string{"GOARCH=386", "GOARCH=arm", "GOARCH=arm64", "GOARCH=mips", "GOARCH=wasm", "GOOS=darwin", "GOOS=windows", "GOOS=js", "GOFLAGS=-tags=foo", "GOMAXPROCS=1",
 			"GODEBUG=asyncpreemptoff=1", "LANG=tr_TR.UTF-8", "LC_ALL=C", "TZ=Pacific/Kiritimati", "SECCOMP=0", "NO_NEW_PRIVS=0", "TMPDIR=/nonexistent", "PWD=/nonexistent", "GOTRACEBACK=none"}
@@ -102,7 +109,7 @@ func drawC15(t *rapid.T) c15Case {
 	if c.Defect == "unprivileged-without-nnp" {
 		c.Uid, c.NNP = 65534, false
 	}
-	evs := probeEvents(&c.Policy, rapid.Uint64().Draw(t, "eventSeed"), 1, false)
+	evs := probeEvents(&c.Policy, rapid.Uint64().Draw(t, "eventSeed"), 1, c.GOARCH == "386")
 	r := gen.NewRng(rapid.Uint64().Draw(t, "orderSeed"))
 	for i := len(evs) - 1; i > 0; i-- {
 		j := r.Intn(i + 1)
@@ -172,7 +179,8 @@ func c15PolicyText(c *c15Case) (text string, writeFile bool) {
 			}
 		}
 		k := idx[c.Pos%len(idx)]
-		p.Groups[k[0]].Conds[k[1]].Conds[k[2]].Arg = 6
+		// 6 and beyond, and the indices whose byte offset 16+8*index wraps around 2^32 onto a valid argument
+		p.Groups[k[0]].Conds[k[1]].Conds[k[2]].Arg = []uint32{6, 6, 7, 255, 536870912, 1610612741, 1 << 30, 1 << 31, 0xffffffff, 0x20000005}[(c.Pos/13)%10]
 	case "unknown-operation":
 		ensureCond()
 		copyGroups()
@@ -326,11 +334,15 @@ func c15BareEntry(c *c15Case) (string, uint32) {
 }
 
 func runSandbox(c *c15Case, text string, writeFile bool) (*c15Run, error) {
-	sb, err := kchild.Bin("sandbox")
+	sbName, probeName := "sandbox", "probe"
+	if c.GOARCH == "386" {
+		sbName, probeName = "sandbox_386", "probe_386"
+	}
+	sb, err := kchild.Bin(sbName)
 	if err != nil {
 		return nil, err
 	}
-	target, err := kchild.Bin("probe")
+	target, err := kchild.Bin(probeName)
 	if err != nil {
 		return nil, err
 	}
@@ -443,6 +455,7 @@ func checkC15(raw json.RawMessage) (ev.Result, error) {
 	if len(c.Env) > 0 {
 		res.Classes = append(res.Classes, "environment-with-toolchain-variables")
 	}
+	res.Classes = append(res.Classes, "abi:"+map[string]string{"": "amd64", "386": "386"}[c.GOARCH])
 	if c.Defect == "entry-without-arguments" || c.Defect == "entry-with-empty-arguments" {
 		// Either the file is refused, or the entry applies to every call of that syscall. What must not
 		// happen is that the file is accepted and the rule silently never matches.
